@@ -25,6 +25,14 @@ type sysgen struct {
 	gen  func(*rand.Rand) string
 }
 
+// pfx is what a version of the system must start with.
+func (sg sysgen) pfx() string {
+	if sg.sys == semver.Go {
+		return "v"
+	}
+	return ""
+}
+
 func systems() []sysgen {
 	return []sysgen{
 		{"Default", semver.DefaultSystem, gen.Wild(gen.Loose)},
@@ -111,6 +119,19 @@ func Run(r *ev.Run, replay string) {
 					seen[s] = true
 					if one(r, sg, s, groups) {
 						r.Count("integer_edge_versions:"+sg.name, 1)
+					}
+				}
+			}
+			// Many components: counts around the edges of 8-, 15- and 16-bit
+			// counters, for the systems that take more than three numbers.
+			for _, k := range []int{255, 256, 257, 32766, 32767, 32768, 40000, 65535, 65536, 65539} {
+				for _, tail := range []string{"", ".7"} {
+					s := sg.pfx() + "1" + strings.Repeat(".1", k-1) + tail
+					if !seen[s] {
+						seen[s] = true
+						if one(r, sg, s, groups) {
+							r.Count("many_component_versions:"+sg.name, 1)
+						}
 					}
 				}
 			}
